@@ -706,6 +706,226 @@ func (e *env) startNonces() {
 	}
 }
 
+// ---------------------------------------------------------------- identity of sealed blocks (memoised values)
+
+// refHeaderHash: the version-selected hash of a header recomputed from scratch: RLP of the header (Version is rlp:"-"),
+// Keccak-256 for version 1, argon2id 1/16/32 KiB for versions 2/3/4 — with golang.org/x/crypto, not crypto/hash.go / rlpHash.
+func refHeaderHash(h *types.Header) common.Hash {
+	enc, _ := rlp.EncodeToBytes(h)
+	if int(h.Version) == 1 {
+		k := xsha3.NewLegacyKeccak256()
+		k.Write(enc)
+		return common.BytesToHash(k.Sum(nil))
+	}
+	return common.BytesToHash(refArgon(int(h.Version), enc))
+}
+
+// touchBlock: every way the node looks at a work block before / while it is being sealed (RPC marshalling of the pending
+// block calls Hash() and Size(); GetWork calls HashNoNonce(); agents take Header() copies)
+var touches = []string{"none", "Hash", "HashNoNonce", "Size", "Header", "String", "all"}
+
+func touchBlock(b *types.Block, how string) {
+	switch how {
+	case "Hash":
+		b.Hash()
+	case "HashNoNonce":
+		b.HashNoNonce()
+	case "Size":
+		b.Size()
+	case "Header":
+		h := b.Header()
+		h.Nonce = types.EncodeNonce(12345) // a copy: must not leak into the block
+	case "String":
+		_ = b.String()
+	case "all":
+		b.Hash()
+		b.HashNoNonce()
+		b.Size()
+		_ = b.Header()
+		_ = b.MinerHash()
+		b.Hash()
+	}
+}
+
+// checkSealedBlock: what must hold of a block the sealer (or a constructor chain) returns: Hash() is the hash of ITS
+// header, equal to the version-selected hash recomputed from scratch; nonce / mix digest as in its header; version that of
+// its height; the hash survives an RLP round trip; (sealed) the header passes VerifySeal.
+func (e *env) checkSealedBlock(path, touch string, cfg *params.ChainConfig, blk *types.Block, eng *aquahash.Aquahash, sealed bool) {
+	c := e.c
+	hdr := blk.Header()
+	want := cfg.GetBlockVersion(hdr.Number)
+	var problems []string
+	if blk.Hash() != hdr.Hash() {
+		problems = append(problems, fmt.Sprintf("block.Hash() %s != block.Header().Hash() %s", blk.Hash().Hex(), hdr.Hash().Hex()))
+	}
+	if hdr.Version != want || blk.Version() != want {
+		problems = append(problems, fmt.Sprintf("version %d/%d, height's version %d", int(hdr.Version), int(blk.Version()), int(want)))
+	} else if ref := refHeaderHash(hdr); blk.Hash() != ref {
+		problems = append(problems, fmt.Sprintf("block.Hash() %s != version-%d hash of the RLP of its header %s", blk.Hash().Hex(), int(want), ref.Hex()))
+	}
+	if blk.Nonce() != hdr.Nonce.Uint64() || blk.MixDigest() != hdr.MixDigest || blk.NumberU64() != hdr.Number.Uint64() {
+		problems = append(problems, "nonce / mix digest / number accessors differ from the header")
+	}
+	if enc, err := rlp.EncodeToBytes(blk); err != nil {
+		problems = append(problems, "rlp encode: "+err.Error())
+	} else {
+		var b2 types.Block
+		if err := rlp.DecodeBytes(enc, &b2); err != nil {
+			problems = append(problems, "rlp decode: "+err.Error())
+		} else if h2 := b2.SetVersion(cfg.GetBlockVersion(b2.Number())); h2 != blk.Hash() {
+			problems = append(problems, fmt.Sprintf("hash after an RLP round trip %s != block.Hash() %s", h2.Hex(), blk.Hash().Hex()))
+		}
+	}
+	if sealed {
+		if err := eng.VerifySeal(nil, hdr); err != nil {
+			problems = append(problems, "VerifySeal: "+sealClass(err))
+		}
+	}
+	key := ""
+	if len(problems) == 0 {
+		key = path + "/" + touch + "/" + blk.Hash().Hex()
+	}
+	c.Eval("block-identity/"+path+"/touched="+touch, key)
+	if len(problems) > 0 {
+		c.Violate(fmt.Sprintf("sealed-block-identity/%s/touched-before=%s/v%d/#%s", path, touch, int(want), hdr.Number),
+			"a block returned by the sealer / a block constructor does not identify as its own header (hash computed with the version's algorithm over its header)",
+			map[string]string{"path": path, "touched_before_sealing": touch, "number": hdr.Number.String(), "version": fmt.Sprint(int(want)), "problems": strings.Join(problems, "; "), "header": shTok(hdr)})
+	}
+}
+
+// blockIdentity: the work block is touched first in every way the node can, then sealed through engine.Seal (1, 2, 3
+// threads), mine, CpuAgent and RemoteAgent (GetWork / SubmitWork); and blocks are passed through NewBlock / WithBody /
+// WithSeal chains.  Heights: one per hash algorithm incl. version-changing forks.
+func (e *env) blockIdentity() {
+	c := e.c
+	type sc struct {
+		name string
+		cfg  *params.ChainConfig
+		num  int64
+	}
+	for _, s := range []sc{{"testnet2", params.Testnet2ChainConfig, 8}, {"testnet2", params.Testnet2ChainConfig, 19}, {"test", params.TestChainConfig, 5}, {"test", params.TestChainConfig, 3}} {
+		cfg := s.cfg
+		chain := cfgOnly{cfg}
+		v := int(cfg.GetBlockVersion(big.NewInt(s.num)))
+		eng := e.engineFor(v)
+		mk := func() *types.Block { // as worker.commitNewWork + Engine.Finalize assemble the work block
+			header := &types.Header{Number: big.NewInt(s.num), GasLimit: 4712388, Extra: []byte("verif"), Time: big.NewInt(1700000000 + s.num),
+				Version: cfg.GetBlockVersion(big.NewInt(s.num)), Difficulty: big.NewInt(int64(2 + c.Rng.Intn(5)))}
+			copy(header.ParentHash[:], c.Rng.Bytes(32))
+			copy(header.Coinbase[:], c.Rng.Bytes(20))
+			return types.NewBlock(header, nil, nil, nil)
+		}
+		for ti, touch := range touches {
+			// engine.Seal, 1..3 threads
+			for _, threads := range []int{1, 2, 3} {
+				if !c.Thorough() && threads != 1+ti%3 {
+					continue
+				}
+				blk := mk()
+				touchBlock(blk, touch)
+				eng.SetThreads(threads)
+				res, err := eng.Seal(chain, blk, nil)
+				if err != nil || res == nil {
+					c.Violate("seal-returned-nothing/identity", "Seal returned no block", map[string]string{"err": fmt.Sprint(err)})
+					continue
+				}
+				e.checkSealedBlock(fmt.Sprintf("Seal/threads=%d", threads), touch, cfg, res, eng, true)
+			}
+			// mine (one search thread, chosen start)
+			{
+				blk := mk()
+				touchBlock(blk, touch)
+				abort, found := make(chan struct{}), make(chan *types.Block, 1)
+				go eng.VerifMine(params.HeaderVersion(v), blk, 0, c.Rng.Uint64(), abort, found)
+				select {
+				case res := <-found:
+					e.checkSealedBlock("mine", touch, cfg, res, eng, true)
+				case <-time.After(20 * time.Second):
+					close(abort)
+					c.Fatal("mine did not return")
+				}
+			}
+			// CpuAgent
+			{
+				blk := mk()
+				touchBlock(blk, touch)
+				ret := make(chan *miner.Result, 1)
+				cpu := miner.NewCpuAgent(chain, eng)
+				cpu.SetReturnCh(ret)
+				cpu.Start()
+				cpu.Work() <- &miner.Work{Block: blk}
+				select {
+				case res := <-ret:
+					touchBlock(blk, touch) // the pending block keeps being queried while the result travels to the worker
+					e.checkSealedBlock("CpuAgent", touch, cfg, res.Block, eng, true)
+				case <-time.After(30 * time.Second):
+					c.Fatal("CpuAgent did not seal within 30 s")
+				}
+				cpu.Stop()
+			}
+			// RemoteAgent: GetWork -> external search -> SubmitWork -> block on the return channel
+			if v >= 2 {
+				blk := mk()
+				touchBlock(blk, touch)
+				ret := make(chan *miner.Result, 1)
+				ra := miner.NewRemoteAgent(chain, eng)
+				ra.SetReturnCh(ret)
+				ra.Start()
+				ra.Work() <- &miner.Work{Block: blk}
+				var work [3]string
+				var err error
+				for i := 0; i < 400; i++ {
+					if work, err = ra.GetWork(); err == nil {
+						break
+					}
+					time.Sleep(5 * time.Millisecond)
+				}
+				if err != nil {
+					c.Fatal("RemoteAgent.GetWork: %v", err)
+				}
+				touchBlock(blk, touch)
+				hash := common.HexToHash(work[0])
+				target := new(big.Int).SetBytes(common.HexToHash(work[2]).Bytes())
+				for nonce := c.Rng.Uint64(); ; nonce++ {
+					if r := crypto.VersionHash(byte(v), seedOf(hash[:], nonce)); new(big.Int).SetBytes(r).Cmp(target) <= 0 {
+						if !ra.SubmitWork(types.EncodeNonce(nonce), common.Hash{}, hash) {
+							c.Violate(fmt.Sprintf("miner-remote-agent-solution-rejected/identity/%s/%d", s.name, s.num), "SubmitWork rejects a valid solution", map[string]string{"touch": touch})
+						}
+						break
+					}
+				}
+				select {
+				case res := <-ret:
+					e.checkSealedBlock("RemoteAgent", touch, cfg, res.Block, eng, true)
+				case <-time.After(5 * time.Second):
+				}
+				ra.Stop()
+			}
+			// constructor chains: NewBlock -> (touch) -> WithBody -> (touch) -> WithSeal(header with another nonce)
+			{
+				blk := mk()
+				touchBlock(blk, touch)
+				uncle := blk.Header()
+				uncle.Extra = []byte("u")
+				wb := blk.WithBody(nil, []*types.Header{uncle})
+				e.checkSealedBlock("NewBlock.WithBody", touch, cfg, wb, eng, false)
+				touchBlock(wb, touch)
+				h2 := wb.Header()
+				h2.Nonce = types.EncodeNonce(c.Rng.Uint64())
+				copy(h2.MixDigest[:], c.Rng.Bytes(32))
+				ws := wb.WithSeal(h2)
+				e.checkSealedBlock("WithBody.WithSeal", touch, cfg, ws, eng, false)
+				touchBlock(ws, touch)
+				h3 := ws.Header()
+				h3.Nonce = types.EncodeNonce(c.Rng.Uint64())
+				e.checkSealedBlock("WithSeal.WithSeal", touch, cfg, ws.WithSeal(h3), eng, false)
+			}
+		}
+	}
+	e.normal.SetThreads(1)
+	e.tester.SetThreads(1)
+}
+
 // minerPaths: the two ways a header reaches Seal / VerifySeal from the node's own miner, driven through the real
 // agents of opt/miner with a block assembled the way worker.commitNewWork + Engine.Finalize assemble it
 // (header.Version = GetBlockVersion(number), types.NewBlock copies it):
@@ -834,6 +1054,7 @@ func main() {
 	e.sealer()
 	e.startNonces()
 	e.minerPaths()
+	e.blockIdentity()
 	c.Assume("ethash (version 1) is exercised in ModeTest (32 KiB dataset); hashimotoLight = hashimotoFull is taken as a property of the primitive")
 	c.Assume("argon2id / hashimoto outputs enter the model as oracle values recorded from the implementation; Keccak-256 and the RLP pre-images are computed by the model")
 	c.Finish()
